@@ -146,3 +146,86 @@ def _blocks(fnode):
                     stack.append(sub)
             for h in getattr(st, "handlers", []):
                 stack.append(h.body)
+
+
+# ------------------------------------------------------------------ dagger
+def _must_assign(stmts, name, pred):
+    """Does every path through ``stmts`` execute an assignment `name = v`
+    with pred(v)?  (if/else aware; loops and try bodies are not relied on)"""
+    for st in stmts:
+        if isinstance(st, ast.Assign) and any(isinstance(t, ast.Name) and t.id == name for t in st.targets) and pred(st.value):
+            return True
+        if isinstance(st, ast.If) and st.orelse:
+            if _must_assign(st.body, name, pred) and _must_assign(st.orelse, name, pred):
+                return True
+        if isinstance(st, (ast.Return, ast.Raise)):
+            return True  # path leaves: no obligation on it
+    return False
+
+
+def rule_dagger_total(ctx):
+    r = RuleResult(
+        "dagger-total",
+        "G-dagger is conjugate *and* transpose for every kind of gate: a function that handles `dagger` itself "
+        "(an `if dagger:` branch) sets transpose on every path through that branch — not only for complex or "
+        "parametrized gates — or derives it unconditionally (`transpose = dagger or transpose`); otherwise it "
+        "forwards dagger to its callee",
+    )
+    n = 0
+    for modname in ("quimb.tensor.gating", "quimb.tensor.tnag.core", "quimb.tensor.tensor_core", "quimb.tensor.tn1d.core"):
+        m = ctx.prog.module(modname)
+        for f in m.all_functions:
+            if isinstance(f.node, ast.Lambda) or f.parent is not None or "dagger" not in f.params or "transpose" not in f.params:
+                continue
+            where = f"{m.relpath}:{f.lineno}"
+            branches = [x for x in ast.walk(f.node) if isinstance(x, ast.If) and src_of(x.test) == "dagger"]
+            derived = any(isinstance(x, ast.Assign) and any(isinstance(t, ast.Name) and t.id == "transpose" for t in x.targets)
+                          and "dagger" in {y.id for y in ast.walk(x.value) if isinstance(y, ast.Name)} for x in f.node.body)
+            forwards = any(isinstance(c, ast.Call) and any(k.arg == "dagger" and src_of(k.value) == "dagger" for k in c.keywords) for c in ast.walk(f.node))
+            if not branches and not derived:
+                if forwards:
+                    r.ok(f.qualname, sample={"function": f.qualname, "dagger": "forwarded"}, nontrivial=False)
+                continue
+            n += 1
+            if derived:
+                r.ok(f.qualname, sample={"function": f.qualname, "dagger": "transpose derived unconditionally from dagger"})
+                continue
+            bad = [b for b in branches if not _must_assign(b.body, "transpose", lambda v: const_value(v, None) is True or "dagger" in src_of(v))]
+            if bad:
+                r.bad(Finding("dagger-total", f.qualname,
+                              f"the `if dagger:` branch (line {bad[0].lineno}) does not set transpose on every path: for some gates (e.g. real dtype) "
+                              f"dagger=True applies G instead of G^T", where=where))
+            else:
+                r.ok(f.qualname, sample={"function": f.qualname, "dagger": "every path through `if dagger:` sets transpose = True"})
+    r.floor(n, 2, "functions handling dagger themselves")
+    return r
+
+
+def rule_where_order(ctx):
+    r = RuleResult(
+        "where-order",
+        "gate_with_auto_swap sorts the two target sites; the orientation with which the gate is finally applied "
+        "(final_gate_where / absorb) is therefore assigned only inside the branch on the original order "
+        "(i > j): an assignment outside it forgets the flip for a descending `where`",
+    )
+    for qual in ("MatrixProductState.gate_with_auto_swap", "MatrixProductOperator.gate_sandwich_with_auto_swap"):
+        f = ctx.prog.func("quimb.tensor.tn1d.core", qual)
+        where = f"{f.module.relpath}:{f.lineno}"
+        order_ifs = [x for x in ast.walk(f.node) if isinstance(x, ast.If) and isinstance(x.test, ast.Compare) and len(x.test.ops) == 1
+                     and isinstance(x.test.ops[0], (ast.Gt, ast.Lt)) and {src_of(x.test.left), src_of(x.test.comparators[0])} == {"i", "j"}]
+        targets = [x for x in ast.walk(f.node) if isinstance(x, ast.Assign) and any(isinstance(t, ast.Name) and t.id in ("final_gate_where", "final_where") for t in x.targets)]
+        if not targets:
+            r.skip(qual, "no orientation variable found")
+            continue
+        if not order_ifs:
+            r.bad(Finding("where-order", qual, "no branch on the original order of the two sites (i > j) found", where=where))
+            continue
+        for a in targets:
+            inside = any(any(a is y for y in ast.walk(o)) for o in order_ifs)
+            if inside:
+                r.ok(f"{qual}[line {a.lineno}]", sample={"function": qual, "assignment": src_of(a)[:50], "control": "under the i > j test"})
+            else:
+                r.bad(Finding("where-order", qual,
+                              f"`{src_of(a)[:50]}` (line {a.lineno}) is assigned outside the branch on the original site order: for where=(larger, smaller) "
+                              f"the gate is applied with its two legs exchanged", where=where, operand=f"line-independent:{src_of(a.value)[:30]}"))
+    return r
